@@ -220,6 +220,9 @@ func (s *Sim) Failed() bool { return s.fatal }
 
 func (s *Sim) violate(prop, oracle, sig string, fatal bool, format string, args ...any) {
 	if s.Flags.NoOracles {
+		if fatal && oracle == "store.readable" {
+			s.fatal = true // the world cannot be read any more; the run ends here also without oracles
+		}
 		return
 	}
 	msg := fmt.Sprintf(format, args...)
@@ -417,8 +420,24 @@ func (s *Sim) Run(ops []Op) {
 	}
 	if !s.fatal {
 		s.OpIdx = len(ops)
-		s.finish()
+		s.Finish()
 	}
+}
+
+// Finish runs the end-of-run checks; like Step it turns a panic escaping from a
+// read of the world into a fatal violation.
+func (s *Sim) Finish() {
+	defer func() {
+		if r := recover(); r != nil {
+			if hb, ok := r.(harnessBug); ok {
+				panic(hb)
+			}
+			s.cur = nil
+			s.tracef("finish panic")
+			s.violate("C01", "store.readable", "finish", true, "reading the world at the end of the run panicked: %v", r)
+		}
+	}()
+	s.finish()
 }
 
 // Step executes one op and the per-op oracles. A panic that escapes from a
@@ -431,6 +450,7 @@ func (s *Sim) Step(op *Op) {
 				panic(hb)
 			}
 			s.cur = nil
+			s.tracef("%d %s read-panic", s.OpIdx, op.K)
 			s.violate("C01", "store.readable", op.K, true, "reading the world during/after %s panicked: %v", op.K, r)
 		}
 	}()
